@@ -114,18 +114,14 @@ def c_batch_last_app(case, r, m):
     return False
 
 
-def c_custom_noinc(case, r, m):
-    """negation of hypothesis plain_spec: an application message sent with a custom sequence number or with
-    no_increment (stored under next_send instead of its number / second put refused)."""
-    for sp in C16._specs(case.line):
-        parts = sp.split("/")
-        for p in parts[1:]:
-            if p.startswith("c") or p == "n":
-                return True
-    return False
+def c_nonplain(case, r, m):
+    """negation of hypothesis plain_spec of c17_store_partial: a message sent with a custom sequence number, with
+    no_increment, a SequenceReset, or with MsgSeqNum / PossDupFlag preset: its number is not consumed, so it is
+    stored under a different key, or its number is re-used and the second put is refused (F20 family)."""
+    return C16.c_nonplain_send(case, r, m)
 
 
-CLASSIFIERS = {"batch-last-app": c_batch_last_app, "custom-or-noinc": c_custom_noinc, "always-seqnum-assign": C16.c_asa}
+CLASSIFIERS = {"batch-last-app": c_batch_last_app, "nonplain-send": c_nonplain, "always-seqnum-assign": C16.c_asa}
 
 
 def nontrivial(case, r):
